@@ -138,6 +138,7 @@ type Resp struct {
 	Rules     []RuleD  `json:"rules,omitempty"`
 	Quiescent bool     `json:"quiescent,omitempty"`
 	Timeout   bool     `json:"timeout,omitempty"`
+	BusyAfterCancel int    `json:"busy_after_cancel,omitempty"` // process goroutines still running (not parked) 10 s after a timed-out run was cancelled
 	Polls     int      `json:"polls,omitempty"`
 	Final     []Site   `json:"final,omitempty"`
 	NRecv     int      `json:"n_recv,omitempty"`
